@@ -13,10 +13,14 @@ Rec0(p, dir) == LET g == Gen(p) IN
 \* this run's share of the programs, plus (AllSuspects) every program whose model outcome is not plain ok/fail
 Rec(p) == Rec0(p, "p")
 NamedProgs == {p \in ProgsR : p.shape.A \in {<<"i2i">>, <<"i2s">>, <<"slcA", "i2s">>} /\ p.shape.B = <<"i2i">>}
-Scen == {Rec(p) : p \in {q \in ProgsR : Mine(q) \/ (AllSuspects /\ Outcome(Gen(q)) \notin {"ok", "fail"})}}
+\* ... plus every program on which a named deviation of the protocol ends differently (only programs with contexts can)
+\* (an eighth of them per run, by shape hash)
+SensMine(q) == (ShapeHash(q.shape.A) + 7 * ShapeHash(q.shape.B)) % 8 = Part % 8
+Sensitive(q) == q.rootCtx /\ q.extCtx /\ Outcome(Gen(q @@ [dev |-> "availcreator"])) # Outcome(Gen(q))
+Scen == {Rec(p) : p \in {q \in ProgsR : Mine(q) \/ (AllSuspects /\ Outcome(Gen(q)) \notin {"ok", "fail"}) \/ (SensMine(q) /\ Sensitive(q))}}
          \cup {Rec0(p, d) : p \in NamedProgs, d \in DirNames \ {"p"}}
 ASSUME ndJsonSerialize(ScenOut, SetToSeq(Scen))
-ASSUME PrintT(<<"exported", Cardinality(Scen)>>)
+ASSUME PrintT(<<"exported", Cardinality(Scen), "sensitive", Cardinality({q \in ProgsR : q.rootCtx /\ q.extCtx /\ SensMine(q) /\ Sensitive(q)})>>)
 VARIABLE x
 Init == x = 0
 Next == x' = x
